@@ -9,6 +9,7 @@
 (*   orig    an original callable returned (ok | nan) or raised, at key p   *)
 (*   store   the store listener ran: key p, names now stored at p          *)
 (*   newiter the (first) new-iteration listener ran for key p              *)
+(*   switch  the same driver instance is now used on another, fresh problem*)
 (*   end     execute() returned or raised: stop class, result, x_opt,      *)
 (*           final counter, len(database), listeners left on the database  *)
 (*                                                                         *)
@@ -46,7 +47,7 @@ Silent  == UNCHANGED <<tid, l, flag>>
 CfgOf(e, x) ==
   [kind |-> e.kind, N |-> e.N, reset |-> e.reset, grad |-> e.grad, useDb |-> e.useDb, storeJac |-> e.storeJac,
    stopIfNan |-> e.stopIfNan, maxTime |-> e.maxTime, kkt |-> e.kkt, nx |-> e.nx, x0 |-> x, samples |-> e.samples,
-   composite |-> e.composite]
+   composite |-> e.composite, obs |-> e.obs, sub |-> e.sub]
 
 (* ------------------------------------------------------------------ strict: steps of Driver *)
 TExec ==
@@ -90,8 +91,14 @@ TStore ==
   /\ Store
   /\ outs'[Ev.p] = ToSet(Ev.names) /\ Ev.len = Len(keys')
 
-\* a store made by a store listener (the KKT residual): no function of the problem is concerned
-TExtraStore == IsEv("store") /\ Ev.extra /\ req.st = "listen" /\ UNCHANGED vars
+\* a store made by a listener (the KKT residual by the store listener, the new-iteration observables by
+\* their new-iteration listener): no function of the problem is concerned
+TExtraStore ==
+  /\ IsEv("store") /\ Ev.extra
+  /\ \/ req.st = "listen"
+     \/ (req.st = "notify" /\ nil[req.k] = "obs")
+     \/ (req.st = "none" /\ cfg.obs)            \* an algorithm that evaluates the observables itself
+  /\ UNCHANGED vars
 
 TNewIterUser ==
   /\ IsEv("newiter") /\ req.st = "notify" /\ nil[req.k] = "user" /\ req.p = Ev.p
@@ -99,8 +106,17 @@ TNewIterUser ==
   /\ NewIter("none")
 
 TNewIterDrv ==
-  /\ req.st = "notify" /\ nil[req.k] = "drv" /\ Silent
+  /\ req.st = "notify" /\ nil[req.k] \in {"drv", "obs"} /\ Silent
   /\ \E s \in Causes \cup {"none"} : NewIter(s)
+
+\* the driver instance goes to another problem
+TSwitch == IsEv("switch") /\ SwitchProblem
+
+\* the documented refusal of inconsistent per-level budgets (ValueError of MultiStart._run)
+TReject ==
+  /\ IsEv("end") /\ Ev.crashed /\ Ev.refused /\ phase = "rejected"
+  /\ Ev.cur = cur /\ Ev.len = Len(keys)
+  /\ UNCHANGED vars
 
 TQuiet ==
   /\ Silent
@@ -123,7 +139,7 @@ TCrash ==
   /\ UNCHANGED vars
 
 TNext == TExec \/ TAskCall \/ TAskCallQuiet \/ TOrigQuiet \/ TAskOwnBlind \/ TOwnQuiet \/ TAlgoMaxIter \/ TOrig \/ TStore \/ TExtraStore
-         \/ TNewIterUser \/ TNewIterDrv \/ TQuiet \/ TEnd \/ TCrash
+         \/ TNewIterUser \/ TNewIterDrv \/ TQuiet \/ TEnd \/ TCrash \/ TSwitch \/ TReject
 
 (* ------------------------------------------------------------------ lenient: observed effects *)
 Flag(c, s) == IF flag = "" /\ ~c THEN s ELSE flag
@@ -140,6 +156,14 @@ LExec ==
   /\ flag' = Flag(phase \in {"idle", "postrun"}, "Protocol")
   /\ UNCHANGED <<dbv, lst, req, todo, at, nexec>>
 
+LSwitch ==
+  /\ LStep("switch")
+  /\ keys' = <<>> /\ outs' = <<>> /\ cur' = 0 /\ max' = 0 /\ nil' = <<"user">>
+  /\ filled0' = {} /\ keys0' = <<>> /\ nil0' = <<>> /\ cur0' = 0 /\ origPts' = {} /\ raised' = {}
+  /\ phase' = "idle" /\ stop' = "none" /\ hasResult' = FALSE /\ xopt' = NanPt
+  /\ flag' = flag
+  /\ UNCHANGED <<cfg, sl, mine, req, todo, at, doev, nexec>>
+
 LOrig ==
   /\ LStep("orig")
   /\ origPts' = origPts \cup {Ev.p}
@@ -155,7 +179,8 @@ LStore ==
   /\ outs' = (IF Ev.p \in DOMAIN outs THEN [outs EXCEPT ![Ev.p] = ToSet(Ev.names)]
               ELSE (Ev.p :> ToSet(Ev.names)) @@ outs)
   /\ cur' = Ev.cur
-  /\ req' = [NoReq EXCEPT !.p = Ev.p, !.k = IF IsEmpty(Ev.p) THEN 1 ELSE 0]   \* was the entry empty?
+  /\ req' = (IF Ev.extra THEN req
+             ELSE [NoReq EXCEPT !.p = Ev.p, !.k = IF IsEmpty(Ev.p) THEN 1 ELSE 0])   \* was the entry empty?
   /\ flag' = flag
   /\ UNCHANGED <<phase, cfg, max, lst, todo, at, doev, stop, resv, nexec, histv, origPts, raised>>
 
@@ -172,12 +197,15 @@ LEnd ==
   /\ cur' = Ev.cur
   /\ hasResult' = Ev.result /\ xopt' = Ev.xopt /\ stop' = Ev.cause
   /\ nil' = [j \in 1..Ev.nni |-> IF j = 1 THEN "user" ELSE "drv"]
-  /\ phase' = (IF Ev.crashed THEN "crashed" ELSE "postrun")
+  /\ phase' = (IF Ev.crashed /\ Ev.refused /\ BadLevels(cfg) THEN "rejected"
+               ELSE IF Ev.crashed THEN "crashed" ELSE "postrun")
   /\ raised' = (IF Ev.crashed /\ ~Ev.userRaise THEN {} ELSE raised)     \* see AlwaysResult
-  /\ flag' = Flag(Ev.len = Len(keys), "Protocol")
+  \* LevelBudgets: per-level budgets that do not fit the global one are refused
+  /\ flag' = (IF flag = "" /\ BadLevels(cfg) /\ ~Ev.crashed THEN "LevelBudgets"
+               ELSE Flag(Ev.len = Len(keys), "Protocol"))
   /\ UNCHANGED <<cfg, dbv, max, sl, mine, req, todo, at, doev, nexec, histv, origPts>>
 
-LNext == LExec \/ LOrig \/ LStore \/ LNewIter \/ LEnd
+LNext == LExec \/ LOrig \/ LStore \/ LNewIter \/ LEnd \/ LSwitch
 
 Next2 == IF Lenient THEN LNext ELSE TNext
 TSpec == TInit /\ [][Next2]_tvars
@@ -187,6 +215,7 @@ Clause ==
   IF ~Budget THEN "Budget"
   ELSE IF ~AlwaysResult THEN "AlwaysResult"
   ELSE IF ~NoListenerLeak THEN "NoListenerLeak"
+  ELSE IF ~RejectClean THEN "RejectClean"
   ELSE IF ~(Lenient /\ stop # "Normal") /\ ~DoeOrder THEN "DoeOrder"
   ELSE IF ~BudgetTight THEN "BudgetTight"
   ELSE IF ~Lenient /\ ~CounterExact THEN "CounterExact"
